@@ -314,7 +314,11 @@ class CalleeMixin:
         self.pre_call(cx, a, node)
         oblige_all(cx, node, self.target.split(".")[-1], self.call_reqs(cx, a))
         self.snapshot(cx, a)
-        return Contract.apply(self, cx, a, node, case)
+        cx.ghost[("applying", self.target)] = True
+        try:
+            return Contract.apply(self, cx, a, node, case)
+        finally:
+            cx.ghost[("applying", self.target)] = False
 
     def snapshot(self, cx, a):
         """remember the caller's record at entry (for `unchanged` clauses)"""
@@ -791,6 +795,7 @@ class Measure(CalleeMixin, More):
         if case.remove:
             cx.assume(L >= 2)
         cx.ghost[("rec_in", self.target)] = rec_of(info)
+        cx.ghost["k0"] = cx.Int("k0")  # the arbitrary site of the skolem-row argument (never constrained)
         return dict(self=mps, site=site, remove=case.remove, outcome=None if case.ok == "None" else cx.Int("outcome"),
                     renorm=cx.Bool("renorm"), info=info, get=case.get, seed=None, backend_random=case.br,
                     inplace=case.inplace)
@@ -837,16 +842,19 @@ class Measure(CalleeMixin, More):
             return {"sites-contracted-before-renumbering": False}
         f = cx.fields(v.tn)
         L0 = cx.pre(o.self)["L"]
-        at, i = m["at"], v.i
+        at, i, k = m["at"], v.i, cx.ghost["k0"]
         d = {"same-object": (v.tn == o.self) == bool(o.inplace), "length-not-yet-changed": f["L"] == L0,
              "i-range": And(o.site + 1 <= i, Or(i <= L0, i == o.site + 1)),
              "gap": If(i == o.site + 1, And(f["gap_shared"], f["gap"] == at), And(Not(f["gap_shared"]), f["gap"] == i - 1)),
-             "below-untouched": forall_sites(Implies(K < o.site, And(sel(f["isL"], K) == sel(m["isL"], K),
-                                                                     sel(f["isR"], K) == sel(m["isR"], K)))),
-             "moved-down": forall_sites(Implies(And(o.site <= K, K < i - 1), And(sel(f["isL"], K) == sel(m["isL"], K + 1),
-                                                                                sel(f["isR"], K) == sel(m["isR"], K + 1)))),
-             "above-not-yet-moved": forall_sites(Implies(K >= i, And(sel(f["isL"], K) == sel(m["isL"], K),
-                                                                    sel(f["isR"], K) == sel(m["isR"], K))))}
+             # skolem row: the flags of ONE arbitrary site k (fixed before the call, unconstrained) are tracked; what is
+             # proved for it holds for every site.  (Quantified forms with the shifted index k + 1 leave the array
+             # property fragment: the solver then no longer answers `sat` on the obligations that really fail.)
+             "below-untouched": Implies(k < o.site, And(sel(f["isL"], k) == sel(m["isL"], k),
+                                                        sel(f["isR"], k) == sel(m["isR"], k))),
+             "moved-down": Implies(And(o.site <= k, k < i - 1), And(sel(f["isL"], k) == sel(m["isL"], k + 1),
+                                                                   sel(f["isR"], k) == sel(m["isR"], k + 1))),
+             "above-not-yet-moved": Implies(k >= i, And(sel(f["isL"], k) == sel(m["isL"], k),
+                                                        sel(f["isR"], k) == sel(m["isR"], k)))}
         rec = rec_of(v.info)
         d["record"] = And(rec[0] == o.site, rec[1] == o.site) if is_pair(rec) else False
         if not o.inplace:
@@ -856,6 +864,21 @@ class Measure(CalleeMixin, More):
     @property
     def loops(self):
         return {0: Loop("for i in range(site + 1, L)", self.inv)}
+
+    def record_post_row(self, cx, a, obj):
+        """record_post with Sound stated for the arbitrary site k0 (body proof); quantified when used as a callee"""
+        k = cx.ghost.get("k0")
+        if cx.ghost.get(("applying", self.target)) or k is None:
+            return self.record_post(cx, a, obj)
+        rec = rec_of(a.info)
+        d = {"record-is-pair": is_pair(rec)}
+        if is_pair(rec):
+            f = cx.fields(obj)
+            lo, hi = Min(rec[0], rec[1]), Max(rec[0], rec[1])
+            d["record-sound-for-the-object-the-caller-keeps"] = And(
+                Implies(And(0 <= k, k < lo), sel(f["isL"], k)), Implies(And(hi < k, k < f["L"]), sel(f["isR"], k)))
+            d["record-in-range"] = And(0 <= lo, hi < f["L"])
+        return d
 
     # ---- callee use
     def call_reqs(self, cx, a):
@@ -910,7 +933,7 @@ class Measure(CalleeMixin, More):
         Ln = cx.fields(tn)["L"]
         d["returns-receiver-iff-inplace"] = (tn == a.self) == bool(a.inplace)
         d["length"] = Ln == (L0 - 1 if a.remove else L0)
-        d.update(self.record_post(cx, a, tn))
+        d.update(self.record_post_row(cx, a, tn))
         if is_pair(rec):
             c = Min(a.site, Ln - 1)
             d["record-is-min(site,new_L-1)-as-documented"] = And(rec[0] == c, rec[1] == c)
